@@ -1,5 +1,5 @@
 (** Proofs for C20. *)
-From OCV Require Import Base.Prelude Net.Selector Net.Token Net.TokenOracle.
+From OCV Require Import Base.Prelude Net.Selector Net.SelectorLemmas Net.Token Net.TokenOracle.
 From Coq Require Import ZifyBool ZifyNat.
 Open Scope Z_scope.
 
@@ -8,4 +8,218 @@ Proof.
   intros t H. unfold decode, encode, W64.
   change (2 ^ 64) with 18446744073709551616 in H.
   rewrite Z.mod_mod by lia. apply Z.mod_small. lia.
+Qed.
+
+(** * The selector with one poller and read interest only, against a binding coroutine <-> descriptor *)
+
+Definition ent (c : Z) : kent := {| k_r := true; k_w := false; k_tok := encode c |}.
+
+Record sel_ok (nfd : Z) (s : sel) (b : list (Z * Z)) : Prop := {
+  so_kern : exists tb, s_kern s = [tb];
+  so_wrec : s_wrec s = [];
+  so_open : forall fd, 0 <= fd < nfd -> zmem fd (s_open s) = true;
+  so_fwd : forall c fd, aget c b = Some fd -> aget fd (tbl s 0) = Some (ent c);
+  so_bwd : forall fd e, aget fd (tbl s 0) = Some e -> exists c, aget c b = Some fd;
+  so_rrec : forall fd, zmem fd (s_rrec s) = match aget fd (tbl s 0) with Some _ => true | None => false end
+}.
+
+Lemma sel_ok_ext : forall nfd s b b', (forall k, aget k b' = aget k b) -> sel_ok nfd s b -> sel_ok nfd s b'.
+Proof.
+  intros nfd s b b' E [K W O F B R]. constructor; auto.
+  - intros c fd H. rewrite E in H. auto.
+  - intros fd e H. destruct (B fd e H) as [c Hc]. exists c. now rewrite E.
+Qed.
+
+Lemma sel_ok_mark : forall nfd s b i fd, sel_ok nfd s b -> sel_ok nfd (mark s i fd) b.
+Proof.
+  intros nfd s b i fd H. unfold mark. destruct (coherent s i fd); [exact H|].
+  destruct H as [K W O F B R]. constructor; auto.
+Qed.
+
+Lemma tbl0_with : forall s tb t, s_kern s = [tb] -> nth 0%nat (lset (s_kern s) 0 t) [] = t.
+Proof. intros s tb t H. rewrite H. reflexivity. Qed.
+
+Lemma add_read_ok : forall nfd s b c fd,
+  sel_ok nfd s b -> 0 <= fd < nfd -> bound_ok b c fd = true ->
+  exists s', add_read_event s 0 fd c = (true, s') /\ sel_ok nfd s' (aset c fd b)
+             /\ aget fd (tbl s' 0) = Some (ent c).
+Proof.
+  intros nfd s0 b c fd H0 Hfd Hb. unfold add_read_event.
+  pose proof (sel_ok_mark nfd s0 b 0%nat fd H0) as H. set (s := mark s0 0 fd) in *. clearbody s. clear H0 s0.
+  destruct H as [K W O F B R].
+  destruct (zmem fd (s_rrec s)) eqn:Er.
+  - exists s. split; [reflexivity|]. rewrite R in Er.
+    destruct (aget fd (tbl s 0)) as [k|] eqn:G; [|discriminate].
+    destruct (B fd k G) as [c' Hc']. unfold bound_ok in Hb.
+    destruct (aget c b) eqn:Gc.
+    + apply Z.eqb_eq in Hb; subst z. split.
+      * apply sel_ok_ext with (b := b); [|constructor; auto].
+        intros k0. rewrite aget_aset. destruct (k0 =? c) eqn:E; [|reflexivity].
+        apply Z.eqb_eq in E; subst. now rewrite Gc.
+      * rewrite <- G. exact (F c fd Gc).
+    + apply negb_true_iff in Hb. exfalso. exact (existsb_snd_false b fd Hb c' Hc').
+  - rewrite W. cbn [zmem]. unfold register, k_add. rewrite (O fd Hfd). cbn [negb].
+    rewrite R in Er. destruct (aget fd (tbl s 0)) eqn:G; [discriminate|].
+    assert (Hc : aget c b = None /\ forall c', aget c' b <> Some fd).
+    { unfold bound_ok in Hb. destruct (aget c b) eqn:Gc.
+      - apply Z.eqb_eq in Hb; subst z. rewrite (F c fd Gc) in G. discriminate.
+      - apply negb_true_iff in Hb. split; [reflexivity|]. exact (existsb_snd_false b fd Hb). }
+    destruct Hc as [Hc1 Hc2].
+    destruct K as [tb K].
+    eexists. split; [reflexivity|].
+    assert (T : forall x, aget x (tbl (with_r
+                  (with_tokfd (with_tbl s 0 (aset fd (ent c) (tbl s 0))) (aset c fd (s_tokfd s)))
+                  (zadd fd (s_rrec s)) (aset fd c (s_rtok s))) 0)
+                = if x =? fd then Some (ent c) else aget x (tbl s 0)).
+    { intros x. unfold tbl at 1. cbn [s_kern with_r with_tokfd with_tbl].
+      rewrite (tbl0_with s tb _ K). apply aget_aset. }
+    split; [constructor|].
+    + exists (aset fd (ent c) (tbl s 0)). cbn [s_kern with_r with_tokfd with_tbl]. rewrite K. reflexivity.
+    + exact W.
+    + exact O.
+    + intros c' fd' H'. rewrite T. rewrite aget_aset in H'.
+      destruct (c' =? c) eqn:E.
+      * apply Z.eqb_eq in E; subst c'. inversion H'; subst fd'. now rewrite Z.eqb_refl.
+      * destruct (fd' =? fd) eqn:E2.
+        -- apply Z.eqb_eq in E2; subst fd'. exfalso. exact (Hc2 c' H').
+        -- exact (F c' fd' H').
+    + intros fd' e H'. rewrite T in H'. destruct (fd' =? fd) eqn:E2.
+      * apply Z.eqb_eq in E2; subst fd'. exists c. rewrite aget_aset. now rewrite Z.eqb_refl.
+      * destruct (B fd' e H') as [c' Hc']. exists c'. rewrite aget_aset.
+        destruct (c' =? c) eqn:E; [|exact Hc'].
+        apply Z.eqb_eq in E; subst c'. congruence.
+    + intros fd'. rewrite T. cbn [s_rrec with_r]. rewrite zmem_zadd, R.
+      destruct (fd' =? fd); reflexivity.
+    + rewrite T. now rewrite Z.eqb_refl.
+Qed.
+
+Lemma deliver_ok : forall nfd s b tok r w, sel_ok nfd s b -> sel_ok nfd (deliver s tok r w) b.
+Proof.
+  intros nfd s b tok r w [K W O F B R]. unfold deliver.
+  destruct r, w; constructor; auto.
+Qed.
+
+Lemma deliver_tbl : forall s tok r w i, tbl (deliver s tok r w) i = tbl s i.
+Proof. intros s tok r w i. unfold deliver. destruct r, w; reflexivity. Qed.
+
+Lemma sel_ok_after_del : forall nfd s b fd sf tb,
+  sel_ok nfd s b -> ukeys b -> s_kern s = [tb] ->
+  s_kern sf = [arem fd tb] -> s_rrec sf = zrem fd (s_rrec s) -> s_wrec sf = [] -> s_open sf = s_open s ->
+  sel_ok nfd sf (filter (fun p => negb (snd p =? fd)) b).
+Proof.
+  intros nfd s b fd sf tb [K W O F B R] Ub Ks E1 E3 E4 E2.
+  assert (Tb : tbl s 0 = tb) by (unfold tbl; now rewrite Ks).
+  assert (T : forall x, aget x (tbl sf 0) = if x =? fd then None else aget x (tbl s 0)).
+  { intros x. unfold tbl at 1. rewrite E1. cbn [nth]. rewrite Tb. apply aget_arem. }
+  constructor.
+  - now exists (arem fd tb).
+  - exact E4.
+  - rewrite E2. exact O.
+  - intros c fd' H'. rewrite T. rewrite (aget_filter_snd b fd c Ub) in H'.
+    destruct (aget c b) as [f|] eqn:Gc; [|discriminate].
+    destruct (f =? fd) eqn:Ef; [discriminate|]. inversion H'; subst fd'. rewrite Ef. exact (F c f Gc).
+  - intros fd' e' H'. rewrite T in H'. destruct (fd' =? fd) eqn:Ef; [discriminate|].
+    destruct (B fd' e' H') as [c Hc]. exists c. rewrite (aget_filter_snd b fd c Ub), Hc, Ef. reflexivity.
+  - intros fd'. rewrite T, E3, zmem_zrem, R. destruct (fd' =? fd); reflexivity.
+Qed.
+
+Lemma del_ok : forall nfd s b fd,
+  sel_ok nfd s b -> ukeys b -> 0 <= fd < nfd ->
+  exists s', el_del_event s fd = (true, s') /\ sel_ok nfd s' (filter (fun p => negb (snd p =? fd)) b).
+Proof.
+  intros nfd s0 b fd H0 Ub Hfd. unfold el_del_event, loops.
+  destruct (so_kern _ _ _ H0) as [tb0 K0]. rewrite K0. cbn [List.length all_loops].
+  unfold del_event.
+  pose proof (sel_ok_mark nfd s0 b 0%nat fd H0) as H. set (s := mark s0 0 fd) in *. clearbody s. clear H0 K0 tb0 s0.
+  pose proof H as Hs. destruct H as [K W O F B R]. destruct K as [tb K].
+  assert (Tb : tbl s 0 = tb) by (unfold tbl; now rewrite K).
+  unfold del_event_core. rewrite W. cbn [zmem]. rewrite orb_false_r.
+  destruct (zmem fd (s_rrec s)) eqn:Er.
+  - rewrite R in Er. destruct (aget fd (tbl s 0)) as [e|] eqn:G; [|discriminate].
+    assert (FIN : forall s1 tok, s_kern s1 = s_kern s -> s_open s1 = s_open s -> s_rrec s1 = s_rrec s ->
+              s_wrec s1 = s_wrec s ->
+              exists s', (let '(ok, s2) := deregister s1 0 fd tok in
+                          if ok then (true, with_w (with_r s2 (zrem fd (s_rrec s2)) (s_rtok s2)) (zrem fd (s_wrec s2)) (s_wtok s2))
+                          else (false, s2)) = (true, s')
+                         /\ sel_ok nfd s' (filter (fun p => negb (snd p =? fd)) b)).
+    { intros s1 tok E1 E2 E3 E4. unfold deregister, k_del. unfold tbl at 1. rewrite E1, E2.
+      fold (tbl s 0). rewrite (O fd Hfd). cbn [negb]. rewrite G.
+      eexists. split; [reflexivity|].
+      apply (sel_ok_after_del nfd s b fd _ tb Hs Ub K).
+      - cbn [s_kern with_w with_r with_tokfd with_tbl]. unfold tbl. rewrite E1, ?K. reflexivity.
+      - cbn [s_rrec with_w with_r with_tokfd with_tbl]. now rewrite E3.
+      - cbn [s_wrec with_w with_r with_tokfd with_tbl]. now rewrite E4, W.
+      - cbn [s_open with_w with_r with_tokfd with_tbl]. exact E2. }
+    destruct (aget fd (s_rtok s)) as [t1|]; [|destruct (aget fd (s_wtok s)) as [t2|]].
+    + destruct (FIN (with_r s (s_rrec s) (arem fd (s_rtok s))) t1) as [s' [E S]]; try reflexivity.
+      exists s'. rewrite E. split; [reflexivity|exact S].
+    + destruct (FIN (with_w s [] (arem fd (s_wtok s))) t2) as [s' [E S]]; try reflexivity;
+        try (cbn [s_wrec with_w]; now rewrite W).
+      exists s'. rewrite E. split; [reflexivity|exact S].
+    + destruct (FIN s 0) as [s' [E S]]; try reflexivity.
+      exists s'. rewrite E. split; [reflexivity|exact S].
+  - exists s. split; [reflexivity|].
+    rewrite R in Er. destruct (aget fd (tbl s 0)) as [e|] eqn:G; [discriminate|].
+    apply sel_ok_ext with (b := b); [|exact Hs].
+    intros k. rewrite (aget_filter_snd b fd k Ub). destruct (aget k b) as [f|] eqn:Gk; [|reflexivity].
+    destruct (f =? fd) eqn:Ef; [|reflexivity]. apply Z.eqb_eq in Ef; subst f.
+    rewrite (F k fd Gk) in G. discriminate.
+Qed.
+
+(** * Tracker lemmas *)
+
+Lemma arem_none : forall {V} k (l : list (Z * V)), aget k l = None -> arem k l = l.
+Proof.
+  intros V k l. induction l as [|[a b] l IH]; cbn [aget arem]; [reflexivity|].
+  destruct (k =? a); [discriminate|]. intros H. now rewrite IH.
+Qed.
+
+Lemma aget_void_fd : forall fd c t,
+  aget c (void_fd fd t) = match aget c t with Some f => Some (if f =? fd then VOID else f) | None => None end.
+Proof.
+  intros fd c t. induction t as [|[a f] t IH]; cbn [void_fd aget]; [reflexivity|].
+  destruct (c =? a); [reflexivity|exact IH].
+Qed.
+
+Lemma keys_void_fd : forall fd t, map fst (void_fd fd t) = map fst t.
+Proof. intros fd t. induction t as [|[a f] t IH]; cbn [void_fd map fst]; [reflexivity|]. now rewrite IH. Qed.
+
+Lemma ukeys_void_fd : forall fd t, ukeys t -> ukeys (void_fd fd t).
+Proof. intros fd t U. unfold ukeys. now rewrite keys_void_fd. Qed.
+
+Lemma aget_head_notin : forall {V} a (l : list (Z * V)), ~ In a (map fst l) -> aget a l = None.
+Proof.
+  intros V a l H. destruct (aget a l) eqn:G; [|reflexivity].
+  exfalso. apply H. apply aget_In in G. apply (in_map fst) in G. exact G.
+Qed.
+
+Lemma waiters_none : forall fd t, ukeys t -> (forall c, aget c t <> Some fd) -> waiters_on fd t = [].
+Proof.
+  intros fd t. unfold waiters_on. induction t as [|[a f] t IH]; intros U H; [reflexivity|].
+  unfold ukeys in U. cbn [map fst] in U. inversion U as [|x xs Hn Hd]; subst.
+  cbn [filter snd]. destruct (f =? fd) eqn:E.
+  - exfalso. apply (H a). cbn [aget]. rewrite Z.eqb_refl. apply Z.eqb_eq in E. now subst.
+  - apply IH; [exact Hd|]. intros c Hc. apply (H c). cbn [aget].
+    destruct (c =? a) eqn:Eca; [|exact Hc].
+    apply Z.eqb_eq in Eca; subst c. rewrite (aget_head_notin a t Hn) in Hc. discriminate.
+Qed.
+
+Lemma waiters_one : forall fd t c, ukeys t -> aget c t = Some fd ->
+  (forall c', aget c' t = Some fd -> c' = c) -> waiters_on fd t = [c].
+Proof.
+  intros fd t c. unfold waiters_on. induction t as [|[a f] t IH]; intros U G H; [discriminate|].
+  unfold ukeys in U. cbn [map fst] in U. inversion U as [|x xs Hn Hd]; subst.
+  cbn [filter snd]. cbn [aget] in G. destruct (f =? fd) eqn:E.
+  - apply Z.eqb_eq in E; subst f.
+    assert (a = c). { apply H. cbn [aget]. now rewrite Z.eqb_refl. } subst a.
+    cbn [map fst]. f_equal. apply (waiters_none fd t Hd).
+    intros c' Hc'. assert (c' = c).
+    { apply H. cbn [aget]. destruct (c' =? c) eqn:E'; [|exact Hc'].
+      apply Z.eqb_eq in E'; subst c'. rewrite (aget_head_notin c t Hn) in Hc'. discriminate. }
+    subst c'. rewrite (aget_head_notin c t Hn) in Hc'. discriminate.
+  - destruct (c =? a) eqn:Eca.
+    + inversion G; subst f. now rewrite Z.eqb_refl in E.
+    + apply IH; [exact Hd|exact G|]. intros c' Hc'. apply H. cbn [aget].
+      destruct (c' =? a) eqn:E'; [|exact Hc'].
+      apply Z.eqb_eq in E'; subst c'. rewrite (aget_head_notin a t Hn) in Hc'. discriminate.
 Qed.
